@@ -80,13 +80,15 @@ SStep(op, r, s) ==
       act == Proj(s, i).bytes
       (* a fallible modification producing `text`: assign replaces, append extends; on a reported error the   *)
       (* contents are unspecified (the model follows the projection, structural invariants still apply)       *)
-      Mod(texts) == IF ~Ok(r) THEN str' = Set(act)
+      (* a refused heap request must leave the string as it was *)
+      Keep == r[1] = "OutOfMemory" => act = m
+      Mod(texts) == IF ~Ok(r) THEN str' = Set(act) /\ Keep
                     ELSE LET res(t) == IF asg THEN t ELSE m \o t IN        \* deterministic: one successor state
                          IF \E t \in texts : res(t) = act THEN str' = Set(act)
                          ELSE str' = Set(res(CHOOSE t \in texts : TRUE))
   IN
   /\ sst' = s
-  /\ CASE op[1] \in {"assign", "assign_cstr"} -> str' = IF Ok(r) THEN Set(bytes) ELSE Set(act)
+  /\ CASE op[1] \in {"assign", "assign_cstr"} -> str' = (IF Ok(r) THEN Set(bytes) ELSE Set(act)) /\ Keep
        [] op[1] = "str" -> Mod({bytes})
        [] op[1] = "char" -> Mod({<<a>>})
        [] op[1] = "chars" -> Mod({Fill(b, a)})
@@ -96,13 +98,13 @@ SStep(op, r, s) ==
        [] op[1] = "hex" -> Mod({HexText(bytes, a)})
        [] op[1] = "fmts" -> Mod({Fill(a, 35) \o bytes})
        [] op[1] = "fmtd" -> Mod({PrintfInt(a, op[9], b, op[10])})
-       [] op[1] = "pad_end" -> IF ~Ok(r) THEN str' = Set(act) ELSE str' = Set(IF a > Len(m) THEN m \o Fill(a - Len(m), b) ELSE m)
+       [] op[1] = "pad_end" -> IF ~Ok(r) THEN str' = Set(act) /\ Keep ELSE str' = Set(IF a > Len(m) THEN m \o Fill(a - Len(m), b) ELSE m)
        [] op[1] = "truncate" -> Ok(r) /\ str' = Set(Take(m, a))
        [] op[1] \in {"clear", "reset"} -> Ok(r) /\ str' = Set(<<>>)
        [] op[1] = "swap" -> str' = [str EXCEPT ![1] = str[2], ![2] = str[1]]
        [] op[1] = "move" -> str' = [str EXCEPT ![i] = str[3 - i], ![3 - i] = <<>>]
-       [] op[1] = "assign_str" -> str' = IF Ok(r) THEN Set(str[a + 1]) ELSE Set(act)
-       [] op[1] = "append_str" -> str' = IF Ok(r) THEN Set(m \o str[a + 1]) ELSE Set(act)
+       [] op[1] = "assign_str" -> str' = (IF Ok(r) THEN Set(str[a + 1]) ELSE Set(act)) /\ Keep
+       [] op[1] = "append_str" -> str' = (IF Ok(r) THEN Set(m \o str[a + 1]) ELSE Set(act)) /\ Keep
        [] op[1] = "append_self" -> str' = IF Ok(r) THEN Set(m \o m) ELSE Set(act)
        [] op[1] = "assign_sub" -> a + b <= Len(m) /\ str' = IF Ok(r) THEN Set(SubSeq(m, a + 1, a + b)) ELSE Set(act)
        [] op[1] \in {"eq", "eq_cstr"} -> str' = str /\ r[1] = (IF m = bytes THEN 1 ELSE 0)
